@@ -2,7 +2,7 @@
 import ast
 
 from ..core import AnalysisError, src, qualname_of
-from ..pysym import SymExec, show, subterms, subterms_guarded, all_calls
+from ..pysym import SymExec, show, subterms, subterms_guarded, all_calls, guards_of
 from ..rules_pyx import N, C, A
 from ..pygrammar import combinator_functions, returned_strings
 from .. import symcat as sc
@@ -284,7 +284,7 @@ def r_feature_and_shape(repo, rep, R='R19.4'):
                     seen.add(id(node))
                     nfeat += 1
                     lacking = [c for c, ms in members.items() if attr not in ms]
-                    guards = ru.flatten_guards(list(st.data.get('guards', {}).get(id(node), ())) + conds)
+                    guards = ru.flatten_guards(list(guards_of(st, e)) + conds)
                     guarded = any(pol and g[0] == 'call' and g[1] in (N('isinstance'), N('hasattr')) and g[2] and g[2][0] == recv for g, pol in guards)
                     rep.check(not lacking or guarded, R, '%s:%s %s' % (rel, node.lineno, qualname_of(fn)),
                               '%s:%s:feature-member:%s' % (rel, qualname_of(fn), attr),
